@@ -125,6 +125,8 @@ C14_ImportExact == (IsStep /\ op.name = "import") =>
     /\ SeqToSet(O0.loose) = SeqToSet(O.loose)
     /\ IndexOK(O)
     /\ (op.samehash => \A r \in Rows(O) : (r \notin Rows(O0)) => r.k \notin mapPrev)  \* held objects not written again
+    (* ... "at all": with the same hash algorithm the packs grow by exactly the stored bytes of the new entries *)
+    /\ (op.samehash => SumPackLens(Packs(O)) - SumPackLens(Packs(O0)) = SumLens(Rows(O) \ Rows(O0)))
 
 (* ---- C03 ---- *)
 C03_IndexOK == IndexOK(O)
